@@ -1,6 +1,7 @@
 //! fcverif: conformance harness binding the TLA+ specifications in /verif/spec to the
 //! flatcontainer crate in /repo (path dependency, rebuilt from the working tree).
 mod catalogue;
+mod dict;
 mod huff;
 mod ic;
 mod interp;
@@ -50,6 +51,18 @@ fn main() {
             let ty = arg(&args, "--ty").unwrap_or("u8".into());
             let out = arg(&args, "--out").expect("--out");
             huff::cmd_gen(seed, count, &out, &ty);
+        }
+        "dict-run" => {
+            let file = args.get(2).expect("scenario file");
+            let out = arg(&args, "--out").expect("--out");
+            let n = arg(&args, "--nslots").and_then(|x| x.parse().ok()).unwrap_or(2);
+            dict::cmd_run(file, &out, n);
+        }
+        "dict-gen" => {
+            let seed = arg(&args, "--seed").and_then(|x| x.parse().ok()).unwrap_or(1);
+            let count = arg(&args, "--count").and_then(|x| x.parse().ok()).unwrap_or(100);
+            let out = arg(&args, "--out").expect("--out");
+            dict::cmd_gen(seed, count, &out);
         }
         "catalogue" => println!("{}", serde_json::to_string_pretty(&catalogue::catalogue_json()).unwrap()),
         "profile" => println!("{}", util::profile_name()),
